@@ -49,7 +49,8 @@ MANIFEST = {
             'temperature, height_pressure, wind and cloud_rain writers: every record written '
             'equals the reference layout (markers, HHMM time, YYJJJ date, '
             'payload bytes) and the readers\' time reconstruction returns the '
-            'flags, for every start day/hour of the enumerated years.',
+            'flags, for every start day/hour of the enumerated years.'
+            ' Also: uamiv steps of 24 h and 72 h (6 h - 240 h thorough) starting on any day of 2003.',
     'note': 'Trusted: z3, symdatetime reference arithmetic. Partial claim: '
             'uamiv and lateral-boundary time flags and 5 met writers; grid header mapping, '
             'rewrite idempotence and the other CAMx formats are outside.',
